@@ -732,42 +732,40 @@ func (db *DB) SavePoint(name string) *DB {
 	if savePointer, ok := db.Dialector.(SavePointerDialectorInterface); ok {
 		// close prepared statement, because SavePoint not support prepared statement.
 		// e.g. mysql8.0 doc: https://dev.mysql.com/doc/refman/8.0/en/sql-prepared-statements.html
-		var (
-			preparedStmtTx   *PreparedStmtTX
-			isPreparedStmtTx bool
-		)
 		// close prepared statement, because SavePoint not support prepared statement.
-		if preparedStmtTx, isPreparedStmtTx = db.Statement.ConnPool.(*PreparedStmtTX); isPreparedStmtTx {
-			db.Statement.ConnPool = preparedStmtTx.Tx
-		}
+		connPool := db.Statement.ConnPool
+		db.Statement.ConnPool = unpreparedTx(connPool)
 		db.AddError(savePointer.SavePoint(db, name))
 		// restore prepared statement
-		if isPreparedStmtTx {
-			db.Statement.ConnPool = preparedStmtTx
-		}
+		db.Statement.ConnPool = connPool
 	} else {
 		db.AddError(ErrUnsupportedDriver)
 	}
 	return db
 }
 
+// unpreparedTx returns the transaction below every prepared-statement wrapper: a handle configured with
+// PrepareStmt and derived once more with Session{PrepareStmt: true} carries two of them
+func unpreparedTx(connPool ConnPool) ConnPool {
+	for {
+		preparedStmtTx, ok := connPool.(*PreparedStmtTX)
+		if !ok {
+			return connPool
+		}
+		connPool = preparedStmtTx.Tx
+	}
+}
+
 func (db *DB) RollbackTo(name string) *DB {
 	if savePointer, ok := db.Dialector.(SavePointerDialectorInterface); ok {
 		// close prepared statement, because RollbackTo not support prepared statement.
 		// e.g. mysql8.0 doc: https://dev.mysql.com/doc/refman/8.0/en/sql-prepared-statements.html
-		var (
-			preparedStmtTx   *PreparedStmtTX
-			isPreparedStmtTx bool
-		)
 		// close prepared statement, because SavePoint not support prepared statement.
-		if preparedStmtTx, isPreparedStmtTx = db.Statement.ConnPool.(*PreparedStmtTX); isPreparedStmtTx {
-			db.Statement.ConnPool = preparedStmtTx.Tx
-		}
+		connPool := db.Statement.ConnPool
+		db.Statement.ConnPool = unpreparedTx(connPool)
 		db.AddError(savePointer.RollbackTo(db, name))
 		// restore prepared statement
-		if isPreparedStmtTx {
-			db.Statement.ConnPool = preparedStmtTx
-		}
+		db.Statement.ConnPool = connPool
 	} else {
 		db.AddError(ErrUnsupportedDriver)
 	}
